@@ -23,6 +23,30 @@ def perms(n, rng, limit):
   return [allp[0]] + rng.sample(allp[1:], limit - 1)
 
 
+AGAINST_DEEP = (2, 3, 5)
+
+
+def deep_against(ctx, rec, naive, po, stats, V):
+  n = len(rec['ps'])
+  base = np.array(rec['ps'], dtype=float)
+  for m in range(1, 2 ** n - 1):
+    judged = [i for i in range(n) if (m >> i) & 1]
+    if len(judged) < n - 1:
+      continue
+    agn = [i for i in range(n) if not (m >> i) & 1]
+    pts, ag = base[judged], base[agn]
+    for strict in (True, False):
+      exp = np.array(rec['against'][str(m)]['strict' if strict else 'weak'])[judged]
+      for name, alg in (('Naive.is_pareto_optimal_against', naive),
+                        ('Fast.is_pareto_optimal_against[threshold=1]', po.FastParetoOptimalAlgorithm(naive, recursive_threshold=1))):
+        stats['routine_calls'] += 1
+        got = np.asarray(alg.is_pareto_optimal_against(pts, ag, strict=strict))
+        if got.shape != exp.shape or not np.array_equal(got, exp):
+          ctx.violation({'via': 'pareto', 'routine': name.split('[')[0], 'config': name},
+                        {'kind': 'pareto', 'space': list(AGAINST_DEEP), 'points': base.tolist(), 'judged': pts.tolist(), 'against': ag.tolist(),
+                         'strict': strict, 'routine': name, 'expected': exp.tolist(), 'observed': got.tolist(), 'palette': 'finite'})
+
+
 def run(ctx, only=None):
   from vizier._src.pyvizier.multimetric import pareto_optimal as po
   from vizier._src.algorithms.evolution import nsga2
@@ -30,7 +54,7 @@ def run(ctx, only=None):
   rng = random.Random(ctx.seed + 3)
   naive = po.NaiveParetoOptimalAlgorithm()
   jaxalg = xla_pareto.JaxParetoOptimalAlgorithm()
-  spaces = [(2, 3, 4), (3, 3, 3), (1, 3, 4)] if not ctx.thorough else [(2, 3, 5), (3, 3, 4), (2, 4, 4), (1, 3, 5), (4, 2, 4)]
+  spaces = [(2, 3, 4), (3, 3, 3), (1, 3, 4), AGAINST_DEEP] if not ctx.thorough else [(2, 3, 5), (3, 3, 4), (2, 4, 4), (1, 3, 5), (4, 2, 4)]
   if only:
     spaces = [tuple(only['space'])]
   jax_frac = 0.02 if not ctx.thorough else 0.05
@@ -51,6 +75,12 @@ def run(ctx, only=None):
       tlc_states += res.distinct
       for rec in recs:
         n = len(rec['ps'])
+        if (D, V, N) == AGAINST_DEEP and not ctx.thorough:
+          # quick: the deep space is used for is_pareto_optimal_against with >= 4 judged points only (the
+          # divide-and-conquer recursion of FastParetoOptimalAlgorithm needs that many to split at all)
+          if n == N:
+            deep_against(ctx, rec, naive, po, stats, V)
+          continue
         stats['multisets'] += 1
         for pname, pal in palettes(V):
           base = np.array([[pal[v] for v in p] for p in rec['ps']], dtype=float)
